@@ -341,6 +341,24 @@ def _object_worker(args):
     return acc.result()
 
 
+def _edit_worker(args):
+    """Read key_tag / compose, edit the record in place (flags, protocol, algorithm, key; names, times), read again:
+    the key tag must be the RFC 4034 Appendix B value of the RDATA the record composes to *now* - i.e. equal to
+    what the equal record built by construction answers (whose own tag the wire clauses judge)."""
+    qn, idx = args
+    from mc.props import c13
+    acc = core.Acc()
+    cls = classes.class_by_name(qn)
+    objs = objects.seed_objects().get(cls, [])
+    if idx >= len(objs):
+        return acc.result()
+    n = c13.check_edit_histories(acc, objs[idx], {'kind': 'edit', 'cls': qn, 'seed': idx},
+                                 names=('key_tag', 'compose', '_asdict'), sigprefix='stale_after_edit')
+    acc.count('edit_histories', n)
+    acc.state(core.h64('edit', qn, idx))
+    return acc.result()
+
+
 def run(ctx):
     items = [('rsa', p, 16) for p in range(16)] + [('flags', p, 32) for p in range(32)] + [('other', p, 4) for p in range(4)]
     ctx.pmap(_dnskey_worker, items)
@@ -352,6 +370,7 @@ def run(ctx):
             for i in range(len(so.get(cls, []))):
                 oitems.append((classes.qualname(cls), i, 1 if ctx.quick else 2))
     ctx.pmap(_object_worker, oitems)
+    ctx.pmap(_edit_worker, [(qn, i) for qn, i, d in oitems])
     ctx.assumptions += ['key tag is computed by the reference over the wire RDATA handed to the parser (RFC 4034 App. B, '
                         'B.1 for algorithm 1)', 'undefined DNSKEY flag bits are not modelled by the library; re-composition '
                         'is compared on the three defined flags', 'Ed448 keys are 57 octets (RFC 8080 s3)']
@@ -360,10 +379,14 @@ def run(ctx):
                            'Ed25519/Ed448 patterns; DS all algorithms x digest types x 4 lengths; RRSIG all RR types + '
                            'private, label/TTL/timestamp boundaries (36 pairs), 5 signer names x 3 signature lengths; MX and '
                            'names: all label sequences of length <= 3 over 4 labels; TXT partitions; object side: '
-                           'neighbourhoods of the seeds')
+                           'neighbourhoods of the seeds; read / edit in place / read histories of key_tag and compose')
 
 
 def replay(ctx, w):
+    if w.get('kind') == 'edit':
+        res = _edit_worker((w['cls'], w['seed']))
+        vs = [v for v in res[1] if v['witness'].get('tag') == w.get('tag')]
+        return vs[0] if vs else None
     acc = core.Acc()
     k = w['kind']
     if k == 'dnskey':
